@@ -1,6 +1,11 @@
 package texttable
 
-import "go.pennock.tech/tabular/texttable/decoration"
+import (
+	"go.pennock.tech/tabular/properties/align"
+	"go.pennock.tech/tabular/texttable/decoration"
+)
+
+type vfOtherKey struct{ n int }
 
 // an item that overrides its size
 type vfSized struct {
@@ -98,6 +103,16 @@ func verifC04(mode, maxCols, L int) {
 			set[i] = vfChoice(vfName("align", i), 4)
 		} else if i == 1 {
 			set[i] = vfChoice(vfName("align", i), 4)
+		}
+		if i == 1 && vfChoice("align-history", 2) == 1 {
+			// the final setting is reached through a history: another value first, then an unrelated
+			// property, then the final value (or removal by setting nil)
+			vfSetAlign(t, i, 1+(set[i]+1)%3)
+			t.Column(i).SetProperty(&vfOtherKey{1}, "unrelated")
+			if set[i] == 0 {
+				t.Column(i).SetProperty(align.PropertyType, nil)
+			}
+			vfTag("alignment-through-history")
 		}
 		vfSetAlign(t, i, set[i])
 	}
